@@ -101,6 +101,8 @@ func checkC01(c *Ctx) {
 	checkCacheRefresh(c)
 	checkMergeOrder(c)
 
+	checkTreeRules(c, l, map[string]bool{"insert": true, "remove": true, "lookup": true})
+
 	// ---- clause 2
 	type cfg struct {
 		f      *types.Var
